@@ -171,7 +171,7 @@ pub fn rich_objects() -> Vec<(u64, Val)> {
     o.push((24, Val::dict(vec![("Limits", Val::Array(vec![Val::str("a"), Val::str("b")])), ("Names", Val::Array(vec![Val::str("a"), Val::Array(vec![Val::r(3), Val::name("Fit")]), Val::str("b"), Val::dict(vec![("D", Val::Array(vec![Val::r(4), Val::name("XYZ"), Val::Int(0), Val::Null, Val::real("1.5")]))])]))])));
     o.push((25, Val::dict(vec![("Title", Val::str("First")), ("Parent", Val::r(23)), ("Next", Val::r(26)), ("Dest", Val::Array(vec![Val::r(3), Val::name("FitH"), Val::Int(700)]))])));
     o.push((26, Val::dict(vec![("Title", Val::Str(vec![0xfe, 0xff, 0, b'Z'])), ("Parent", Val::r(23)), ("Prev", Val::r(25)), ("A", Val::dict(vec![("S", Val::name("GoTo")), ("D", Val::str("a"))])), ("C", Val::Array(vec![Val::Int(1), Val::Int(0), Val::real("0.5")]))])));
-    o.push((30, Val::dict(vec![("Type", Val::name("Annot")), ("Subtype", Val::name("Link")), ("Rect", rect(10, 10, 50, 20)), ("P", Val::r(4)), ("Contents", Val::str("note")), ("M", Val::str("D:20240131120000+01'00'")), ("Border", Val::ints(&[0, 0, 1]))])));
+    o.push((30, Val::dict(vec![("Type", Val::name("Annot")), ("Subtype", Val::name("Link")), ("Rect", rect(10, 10, 50, 20)), ("P", Val::r(4)), ("Contents", Val::str("note")), ("M", Val::str("D:20240131120000+01'00'")), ("Border", Val::ints(&[0, 0, 1])), ("AP", Val::dict(vec![("N", Val::r(17))]))])));
     o.push((32, Val::dict(vec![("FT", Val::name("Tx")), ("T", Val::str("field")), ("V", Val::str("value")), ("DV", Val::Null), ("Rect", rect(0, 0, 10, 10)), ("Kids", Val::Array(vec![]))])));
     o.push((33, Val::stream(vec![("Type", Val::name("Metadata")), ("Subtype", Val::name("XML"))], b"<x:xmpmeta/>".to_vec())));
     o.push((34, Val::dict(vec![("Secret", Val::str("shared private data")), ("Back", Val::r(4))])));
@@ -289,6 +289,19 @@ pub fn hostile_objects() -> Vec<(u64, Val)> {
     res.1.set("XObject", xo);
     set(&mut o, 16, "SMask", Val::r(75));
     set(&mut o, 32, "Kids", Val::Array(vec![Val::r(74)]));
+    // appearance streams: a form, and a dictionary of states (both reached through lazy references)
+    set(&mut o, 30, "AP", Val::dict(vec![("N", Val::r(17)), ("D", Val::r(76))]));
+    o.push((76, Val::dict(vec![("On", Val::r(17)), ("Off", Val::r(17))])));
+    // a JBIG2 image with a globals stream, and a graphics state that names a font
+    let res = o.iter_mut().find(|(n, _)| *n == 5).unwrap();
+    let mut xo = res.1.get("XObject").unwrap().clone();
+    xo.set("Im4", Val::r(77));
+    res.1.set("XObject", xo);
+    let mut gs = res.1.get("ExtGState").unwrap().clone();
+    gs.set("GS2", Val::dict(vec![("Type", Val::name("ExtGState")), ("Font", Val::Array(vec![Val::r(9), Val::Int(12)]))]));
+    res.1.set("ExtGState", gs);
+    o.push((77, Val::stream(vec![("Type", Val::name("XObject")), ("Subtype", Val::name("Image")), ("Width", Val::Int(8)), ("Height", Val::Int(1)), ("ColorSpace", Val::name("DeviceGray")), ("BitsPerComponent", Val::Int(1)), ("Filter", Val::name("JBIG2Decode")), ("DecodeParms", Val::dict(vec![("JBIG2Globals", Val::r(78))]))], vec![0, 0, 0, 0])));
+    o.push((78, Val::stream(vec![], vec![0, 0, 0, 1])));
     o.push((60, Val::stream(vec![("Length", Val::r(61))], b"indirect length".to_vec())));
     o.push((61, Val::Int(15)));
     o.push((62, Val::stream(vec![("FunctionType", Val::Int(4)), ("Domain", Val::ints(&[0, 1])), ("Range", Val::ints(&[0, 1, 0, 1, 0, 1]))], b"{ dup dup 0.5 mul exch }".to_vec())));
